@@ -16,12 +16,13 @@ COQ_IMPORTS = ['C14_Model']
 GENERATORS = ['gen_codes', 'gen_flags', 'gen_sjson']
 STRANDS = '+-.?'
 RULE = ('object graphs built from an abstract tree: (x) the exhaustive box of all 4 strands x 256 defect sets on a two-location feature '
-        'with and without location metadata; (r) random baskets of 0-3 sequences (type nt/aa drawn independently of the residues), '
+        'with and without location metadata; (r) random baskets of 0-3 sequences (type nt/aa drawn independently of the residues; sequence ids and feature id/name/seqid/type entries are '
+        "JSON scalars of every type with emphasis on the falsy ones 0, None, False, 0.0, -0.0, ''; locations with tied sort keys), "
         'metadata trees of depth <= 4 over None/bool/int (up to 2^200)/float (incl. nan, inf, -0.0)/str (quotes, backslashes, control and '
         'Latin-1 characters)/list/plain dict/Attr/Meta, 0-3 features with 1-3 locations, keys drawn from a pool containing private keys '
         "('_x', '_', '_fmt', '_fmtcomment', '_cls'), constructor parameter names, 'self', 'str' and the excluded F20 names; "
         '(m) a mutation stream leaving the domain (lower-case residues, missing id, mixed strands, unsorted locations, plain dict '
-        "directly inside Attr, '_cls' inside a plain dict, bad type). Compared modulo '_'-prefixed keys and key order. "
+        "directly inside Attr, '_cls' inside a plain dict, bad type). Compared by value AND JSON type (0, False, 0.0, None, '' pairwise different) modulo '_'-prefixed keys and key order. "
         'non-trivial = distinct in-domain case with at least one marker (minus/unstranded location, defect, location metadata, '
         'several locations, nesting depth >= 2, private key dropped, Attr inside list, type differing from the inferred one)')
 TRUSTED = ['CPython json text layer: json.dump calls default() exactly on non-native objects (Strand=StrEnum and Defect=IntFlag are written '
@@ -146,8 +147,13 @@ def split_model(case, m):
 
 
 # ----------------------------------------------------------------------------- building real objects
-def src(v):
-    """python source expression building the node through the public API"""
+class ConstructedGraphDiffers(Exception):
+    """the public constructors did not produce the case graph (a constructor normalised or reordered something)"""
+
+
+def src(v, assign=False):
+    """python source expression building the node through the public API; assign=True builds sequences by public attribute
+    assignment (seq.data / seq.meta / seq.type) instead of through BioSeq.__init__"""
     if v is None or isinstance(v, (bool, int, str)):
         return repr(v)
     t = v[0]
@@ -167,11 +173,11 @@ def src(v):
         return 'FeatureList([%s])' % ', '.join(src(x) for x in v[1:])
     if t == 'BioSeq':
         keys = [k for k, _ in v[3][1:]]
-        if v[1].upper() == v[1] and 'id' in keys and v[2] in ('nt', 'aa'):
+        if not assign and v[1].upper() == v[1] and 'id' in keys and v[2] in ('nt', 'aa'):
             return 'BioSeq(%r, meta=%s, type=%r)' % (v[1], src(v[3]), v[2])
         return '_mkseq(%r, %s, %r)' % (v[1], src(v[3]), v[2])      # public attribute assignment after construction
     if t == 'BioBasket':
-        return 'BioBasket([%s], meta=%s)' % (', '.join(src(x) for x in v[1]), src(v[2]))
+        return 'BioBasket([%s], meta=%s)' % (', '.join(src(x, assign) for x in v[1]), src(v[2]))
     raise ValueError('bad case node %r' % (v,))
 
 
@@ -182,10 +188,10 @@ PRELUDE = ('from sugar import BioSeq, BioBasket, read\n'
            '    s = BioSeq("A")\n    s.data = data\n    s.meta = meta\n    s.type = typ\n    return s\n')
 
 
-def build(v):
+def build(v, assign=False):
     env = {}
     exec(PRELUDE, env)
-    return eval(src(v), env)
+    return eval(src(v, assign), env)
 
 
 def snap(o):
@@ -260,16 +266,20 @@ def impl(case):
     g = case['b']
     check_shape(g, 'BioBasket')
     b = build(g)
-    assert snap(b) == expected_snapshot(g), 'harness: the constructed objects are not the case graph'
+    if _diff(snap(b), expected_snapshot(g)) is not None:
+        b = build(g, assign=True)            # BioSeq.__init__ normalised something: set the public attributes instead
+    d = _diff(snap(b), expected_snapshot(g))
+    if d is not None:
+        raise ConstructedGraphDiffers(d)
     b2 = roundtrip(b)
-    assert snap(b) == expected_snapshot(g), 'writing changed the object that was written'
+    assert _diff(snap(b), expected_snapshot(g)) is None, 'writing changed the object that was written'
     return snap(b2)
 
 
 def agree(case, implval, modelval):
     if isinstance(implval, dict) or isinstance(modelval, dict):
         return isinstance(implval, dict) and isinstance(modelval, dict)      # raises / does not raise
-    return canon(implval) == canon(modelval)
+    return _diff(canon(implval), canon(modelval)) is None                  # value AND JSON type (0 is not False)
 
 
 def _diff(a, b, path=''):
@@ -419,6 +429,8 @@ def g_pairs(rng, depth, in_attr, opts, n=None):
 def g_val(rng, depth, in_attr, opts):
     r = rng.random()
     if depth <= 0 or r < 0.45:
+        if rng.random() < 0.2:
+            return g_scalar(rng, 0.8)
         c = rng.randrange(6)
         if c == 0:
             return None
@@ -448,6 +460,16 @@ def g_meta(rng, depth, opts, n=None):
     return ['Meta'] + g_pairs(rng, depth, True, opts, n)
 
 
+FALSY = [0, None, False, ['f', '0.0'], '', ['f', '-0.0']]
+TRUTHY_SCALARS = [1, True, 'x', 7, ['f', '1.0'], -1, 'id0', '0', 'None', 'false']
+
+
+def g_scalar(rng, pfalsy=0.6):
+    """JSON scalar with emphasis on falsy ones (what `if x:` style tests confuse with absence)"""
+    v = rng.choice(FALSY) if rng.random() < pfalsy else rng.choice(TRUTHY_SCALARS)
+    return list(v) if isinstance(v, list) else v
+
+
 def g_loc(rng, strand, opts, depth=2):
     a = rng.choice([0, 1, 5, 10, 100, -7, 10 ** 12]) + rng.randint(0, 30)
     b = a + rng.choice([1, 1, 2, 3, 10, 1000])
@@ -467,11 +489,25 @@ def g_feat(rng, opts, depth=2):
     locs = [g_loc(rng, strand, opts, depth) for _ in range(rng.choice([1, 1, 1, 2, 2, 3]))]
     if rng.random() < opts.get('mixed', 0.0) and len(locs) > 1:
         locs[-1][3] = rng.choice([s for s in STRANDS if s != strand])
+    if len(locs) > 1 and rng.random() < 0.35:
+        # ties in the sort key (stop on the minus strand, start otherwise) with otherwise different locations: stability
+        for l in locs[1:]:
+            if strand == '-':
+                l[2] = locs[0][2]
+                l[1] = l[2] - rng.choice([1, 2, 5, 9])
+            else:
+                l[1] = locs[0][1]
+                l[2] = l[1] + rng.choice([1, 2, 5, 9])
+            l[4] = rng.randrange(256)
     if rng.random() >= opts.get('unsorted', 0.0):
         locs = sort_locs(locs)
     m = g_meta(rng, depth, opts)
-    if rng.random() < 0.7 and not any(k == 'type' for k, _ in m[1:]):
-        m.insert(1, ['type', rng.choice(['CDS', 'gene', 'cds', 'source', ''])])
+    m = [m[0]] + [p for p in m[1:] if p[0] not in ('type', 'id', 'name', 'seqid')]
+    if rng.random() < 0.7:
+        m.insert(1, ['type', rng.choice(['CDS', 'gene', 'cds', 'source', '']) if rng.random() < 0.6 else g_scalar(rng)])
+    for k in ('id', 'name', 'seqid'):                 # the metadata entries Feature exposes as attributes
+        if rng.random() < 0.3:
+            m.insert(rng.randint(1, len(m)), [k, g_scalar(rng)])
     return ['Feature', m, locs]
 
 
@@ -487,7 +523,8 @@ def g_seq(rng, opts, depth=3):
     m = g_meta(rng, depth, opts)
     m = [m[0]] + [p for p in m[1:] if p[0] not in ('id', 'fts')]
     if rng.random() >= opts.get('noid', 0.0):
-        m.insert(rng.randint(1, len(m)), ['id', rng.choice(['s1', 'AB047639.1', '', 'x y', 's\xe9q'])])
+        sid = rng.choice(['s1', 'AB047639.1', '', 'x y', 's\xe9q']) if rng.random() < 0.5 else g_scalar(rng, 0.75)
+        m.insert(rng.randint(1, len(m)), ['id', sid])
     if rng.random() < 0.75:
         fts = ['FeatureList'] + [g_feat(rng, opts, depth - 1) for _ in range(rng.choice([0, 1, 1, 2, 3]))]
         m.insert(rng.randint(1, len(m)), ['fts', fts])
